@@ -49,7 +49,8 @@ pub const BROKEN: &[&str] = &[
     "<![cdata[x]]>", "<!DOCTYPE>", "<!DOCTYPE >", "<!DOCTYPE x [<!ENTITY e '>'>]>", "<!doctype html>", "<!-->",
     "<!--->", "<?>", "<??>", "<a b=>", "<a b='>", "<a b=\">", "<a 'x'>", "</a b='>'>", "<a/ >", "<a//>", "<!D>",
     "<![CDATA[]>", "<![CDATA[]]", "<!---->", "<!---", "\u{feff}", "<?xml", "<?xml version='1.0'", "<a\n",
-    "<![", "<!---->x-->", "<!DOCTYPE x [<", "<!DOCTYPE x <a> <b>>", "]]>", "-->", "?>", "/>", "<a =''>", "<a a='1' a='2'>",
+    "<![", "<!---->x-->", "<!DOCTYPE x [<", "<a b=c d>", "<a b = c>", "<a b c='1'>", "<a b=\"1\" c d=e f='2'>", "<a =x>",
+    "<a b='1'c='2'>", "<a b=\"1\"c>", "<a b='1' b='2' c=3 b>", "<a b=\"x\" =y z>", "<a\tb\n=\r'1'/>", "<?pi a=b c='d' e?>", "<!DOCTYPE x <a> <b>>", "]]>", "-->", "?>", "/>", "<a =''>", "<a a='1' a='2'>",
 ];
 
 pub fn ws(rng: &mut Rng) -> &'static str {
